@@ -3,6 +3,7 @@ package c13
 
 import (
 	"fmt"
+	"reflect"
 	"sort"
 	"strings"
 	"testing"
@@ -131,6 +132,7 @@ func runModule(t *testing.T, mk func() *adapter, n hx.N) {
 			return l
 		}
 		sawWhole, sawPerRes, sawInvalid, sawValid := false, false, false, false
+		sawEdit := false
 		type past struct {
 			res  string // "" = whole set
 			list []any
@@ -139,8 +141,43 @@ func runModule(t *testing.T, mk func() *adapter, n hx.N) {
 		var replay *past
 		nops := rapid.IntRange(1, 12).Draw(t, "ops")
 		for i := 0; i < nops; i++ {
-			kind := rapid.IntRange(0, 6).Draw(t, "op")
+			kind := rapid.IntRange(0, 7).Draw(t, "op")
 			replay = nil
+			if kind == 7 { // an earlier list with ONE field of ONE rule changed (taken from a freshly drawn rule of the module):
+				// reaches "same as the current rules" short cuts and per-rule equality tests that forget a field
+				kind = 0
+				if len(history) > 0 {
+					h := history[rapid.IntRange(0, len(history)-1).Draw(t, "which")]
+					l := cloneList(a, h.list)
+					var idx []int
+					for j, r := range l {
+						if !a.isNil(r) {
+							idx = append(idx, j)
+						}
+					}
+					if len(idx) > 0 {
+						j := idx[rapid.IntRange(0, len(idx)-1).Draw(t, "rule")]
+						donor := a.gen(t, a.resOf(l[j]), false)
+						dv, rv := reflect.ValueOf(donor).Elem(), reflect.ValueOf(l[j]).Elem()
+						var fields []int
+						for f := 0; f < rv.NumField(); f++ {
+							if nm := rv.Type().Field(f).Name; rv.Field(f).CanSet() && nm != "Resource" {
+								fields = append(fields, f)
+							}
+						}
+						f := fields[rapid.IntRange(0, len(fields)-1).Draw(t, "field")]
+						rv.Field(f).Set(dv.Field(f))
+						c.Op("edit: field %s of rule %d of an earlier list := %v", rv.Type().Field(f).Name, j, dv.Field(f).Interface())
+						sawEdit = true
+						h2 := past{h.res, l}
+						history = append(history, h2)
+						replay = &h2
+						if h.res != "" {
+							kind = 1
+						}
+					}
+				}
+			}
 			if kind == 6 { // submit an earlier list again (reaches stale "same as current" caches after clears)
 				if len(history) == 0 {
 					kind = 0
@@ -207,6 +244,7 @@ func runModule(t *testing.T, mk func() *adapter, n hx.N) {
 				} else {
 					l = genList(res, false)
 				}
+				l = append([]any{}, l...) // never edit a list the history shares
 				if a.single && len(l) > 1 {
 					l = l[len(l)-1:]
 				}
@@ -311,6 +349,7 @@ func runModule(t *testing.T, mk func() *adapter, n hx.N) {
 		_ = a.clearAll()
 		c.ClassIf(sawWhole && sawPerRes, "whole+per-resource")
 		c.ClassIf(sawInvalid, "has-invalid-rule")
+		c.ClassIf(sawEdit, "one-field-edit-of-an-earlier-list")
 		if sawWhole && (sawPerRes || !a.perRes) && sawInvalid && sawValid {
 			c.NonTrivial()
 		}
